@@ -17,14 +17,15 @@ fn main() {
         "sizes" => {
             for level in 0..2 {
                 println!(
-                    "level {level}: layouts={} m1={} m2={} m3={} m4={} m5={} m6={}",
+                    "level {level}: layouts={} m1={} m2={} m3={} m4={} m5={} m6={} m7={}",
                     gen::layouts(level).len(),
                     gen::m1(level).len(),
                     gen::m2(level).len(),
                     gen::m3(level).len(),
                     gen::m4(level).len(),
                     gen::m5(level).len(),
-                    gen::m6(level).len()
+                    gen::m6(level).len(),
+                    gen::m7(level).len()
                 );
             }
         }
